@@ -39,3 +39,21 @@ func FaultCount(name string) int {
 	}
 	return W.faults[name]
 }
+
+// Local returns run-local storage for the simulated substrates (network,
+// discovery): created on first use in each run.
+func Local(key string, mk func() any) any {
+	w := W
+	if w == nil {
+		panic("simrt: Local outside a run")
+	}
+	if w.locals == nil {
+		w.locals = map[string]any{}
+	}
+	v, ok := w.locals[key]
+	if !ok {
+		v = mk()
+		w.locals[key] = v
+	}
+	return v
+}
